@@ -220,6 +220,36 @@ def selection_witness(native, v, level, streams):
     return None, None, None, tried
 
 
+def repetitive_witness(native, v0):
+    """large symbols filled to capacity with one repeated character: the penalties there reach tens of thousands, where a
+    comparison in a narrow integer type goes wrong; -> (version, level, stream, emitted mask, penalties) or None"""
+    tried = 0
+    for v in sorted({39, 29, max(v0, 21)}, reverse=True):
+        for (lv, ch) in ((0, 0x61), (0, 0x21), (0, 0x20)):
+            level = iso.LEVELS[lv]
+            dc = iso.data_codewords(v + 1, level)
+            n = 0
+            while iso.fits(v + 1, level, 'byte', n + 1):
+                n += 1 if n < 64 else 32
+            while not iso.fits(v + 1, level, 'byte', n):
+                n -= 1
+            data = iso.encode_codewords(v + 1, level, 'byte', [ch] * n)
+            stream = iso.interleave(v + 1, level, data[:dc])
+            ans = xcheck.native_place(native, v, stream, lv, None)
+            f = OV.parse_fields(ans)
+            tried += 1
+            if 'outmask' not in f or f['outmask'] == '-':
+                continue
+            ms = int(f['outmask'])
+            pens = []
+            for m in range(8):
+                mat, labs = oracle_candidate(v, stream, m)
+                pens.append(iso.penalty(mat, labs))
+            if pens[ms] != min(pens):
+                return v, lv, stream, ms, pens
+    return None
+
+
 def job_selection(job):
     v, seed = job
     prog = worker_prog()
@@ -301,6 +331,18 @@ def job_selection(job):
         w, ms, pens, tried = selection_witness(native, v, level, [st] + [[rnd.randrange(256) for _ in range(total)] for _ in range(20)])
         confirmed = bool(mism) or w is not None
         what = lab + ' fails'
+        if not confirmed and v == max(j_[0] for j_ in [job]) and job[0] >= 4:
+            # scores of random streams stay in the low thousands; try large symbols with repetitive payloads once (from the
+            # job of the seed-chosen large version only: each try costs 8 reference penalties on a 177x177 matrix)
+            rw = repetitive_witness(native, v)
+            if rw is not None:
+                v_, lv_, st_, ms, pens = rw
+                confirmed = True
+                what = ('automatic mask %d has documented penalty %d, mask %d has %d (V%02d level %s, payload of one repeated character at capacity); %s'
+                        % (ms, pens[ms], pens.index(min(pens)), min(pens), v_ + 1, iso.LEVELS[lv_], lab))
+                res['failures'].append({'key': 'C11/selection', 'confirmed': True, 'obligation': lab, 'what': what,
+                                        'replay': {'entry': 'place', 'version': v_, 'level': lv_, 'mask': None, 'stream': bytes(st_).hex()}})
+                continue
         if w is not None:
             what = 'automatic mask %d has documented penalty %d, mask %d has %d (V%02d stream %s...); %s' % (ms, pens[ms], pens.index(min(pens)), min(pens), v + 1, bytes(w[:10]).hex(), lab)
         elif mism:
